@@ -81,24 +81,36 @@ Ltac inner_scrut k :=
     end
   end.
 
+(** name a compound machine expression and record its invariant *)
+Ltac name_inv X :=
+  let m' := fresh "m" in let H := fresh "Hn" in
+  eassert (H : inv _ _ X) by fl; set (m' := X) in *; clearbody m'.
+
+(** a flag read on a compound machine expression: name it, so that [fix_flags] can replace the
+    read by the known value *)
+Ltac flag_read :=
+  match goal with
+  | |- context [st_collecting ?X] => tryif is_var X then fail else name_inv X
+  | |- context [st_finalizing ?X] => tryif is_var X then fail else name_inv X
+  | |- context [st_dropping ?X] => tryif is_var X then fail else name_inv X
+  | |- context [panicking ?X] => tryif is_var X then fail else name_inv X
+  end.
+
 (** one step in program order: a call returning a machine is replaced by a fresh machine that
     satisfies the invariant; anything else is case-split *)
 Ltac adv1 :=
-  inner_scrut ltac:(fun x =>
+  first
+  [ flag_read
+  | inner_scrut ltac:(fun x =>
     lazymatch type of x with
     | (machine * _)%type =>
         let Hr := fresh "Hr" in let m1 := fresh "m" in let y1 := fresh "y" in
         eassert (Hr : inv _ _ x.1) by fl;
         destruct x as [m1 y1]; cbn [fst snd] in Hr
     | _ => destruct x eqn:?
-    end); cbv beta iota zeta; cbn [andb negb].
+    end) ]; cbv beta iota zeta; cbn [andb negb]; fix_flags.
 
-Ltac go := cbv beta iota zeta; cbn [andb negb]; repeat adv1; cbn [fst]; fl.
-
-(** name a compound machine expression and record its invariant *)
-Ltac name_inv X :=
-  let m' := fresh "m" in let H := fresh "Hn" in
-  eassert (H : inv _ _ X) by fl; set (m' := X) in *; clearbody m'.
+Ltac go := cbv beta iota zeta; cbn [andb negb]; fix_flags; repeat adv1; cbn [fst]; fl.
 
 Section Steps.
   Context (K : conf) (P : prog).
@@ -295,4 +307,144 @@ Section Steps.
   Proof. intros c f d p m H Hq. unfold cmd_drop_value. go. Qed.
   Lemma f_cmd_fin_again self l : gen_ok (cmd_fin_again K self l).
   Proof. intros c f d p m H Hq. unfold cmd_fin_again. go. Qed.
+  Lemma f_cmd_new_cyclic self dst cls script sw : gen_ok (cmd_new_cyclic K P rec self dst cls script sw).
+  Proof.
+    intros c f d p m H Hq. unfold cmd_new_cyclic. cbv beta iota zeta. cbn [andb negb].
+    repeat first
+      [ match goal with
+        | |- context [match weak_clone ?w ?m0 with _ => _ end] =>
+          let E := fresh "E" in let Hm := fresh "Hm" in
+          eassert (Hm : inv _ _ m0) by fl;
+          destruct (weak_clone w m0) as [m'|] eqn:E;
+          [ eassert (inv _ _ m') by (eapply inv_weak_clone; [exact Hm|exact E]) | ]
+        end
+      | adv1 ];
+    cbn [fst]; fl.
+  Qed.
+  Lemma f_cmd_register self nd script cs : gen_ok (cmd_register K P rec self nd script cs).
+  Proof. intros c f d p m H Hq. unfold cmd_register. go. Qed.
+  Lemma f_cmd_clean self cs : gen_ok (cmd_clean K rec self cs).
+  Proof. intros c f d p m H Hq. unfold cmd_clean. go. Qed.
+  Lemma f_cmd_c_drop self cs : gen_ok (cmd_c_drop K self cs).
+  Proof. intros c f d p m H Hq. unfold cmd_c_drop. go. Qed.
+  Lemma f_cmd_bag self l k : gen_ok (cmd_bag self l k).
+  Proof.
+    intros c f d p m H Hq. unfold cmd_bag. cbv beta iota zeta. adv1.
+    destruct (y ≫= λ r, read_loc r m0) as [o|]; [|cbn [fst]; fl].
+    generalize (N.to_nat k). intros n. revert m0 Hr.
+    induction n as [|n IH]; intros m0 Hr; [cbn [fst]; fl|].
+    destruct (inc_rc (hdr_of m0 o)) as [h|]; [|cbn [fst]; fl].
+    apply IH. fl.
+  Qed.
+  Lemma f_cmd_unbag self k : gen_ok (cmd_unbag rec self k).
+  Proof. intros c f d p m H Hq. unfold cmd_unbag. go. Qed.
+  Lemma f_cmd_borrow self nd : gen_ok (cmd_borrow self nd).
+  Proof. intros c f d p m H Hq. unfold cmd_borrow. go. Qed.
+  Lemma f_cmd_unborrow self nd : gen_ok (cmd_unborrow self nd).
+  Proof. intros c f d p m H Hq. unfold cmd_unborrow. go. Qed.
+  Lemma f_cmd_cfg_auto self b : gen_ok (cmd_cfg_auto K self b).
+  Proof. intros c f d p m H Hq. unfold cmd_cfg_auto. go. Qed.
+  Lemma f_cmd_cfg_percent self n e : gen_ok (cmd_cfg_percent K self n e).
+  Proof. intros c f d p m H Hq. unfold cmd_cfg_percent. go. Qed.
+  Lemma f_cmd_cfg_buffered self b : gen_ok (cmd_cfg_buffered K self b).
+  Proof. intros c f d p m H Hq. unfold cmd_cfg_buffered. go. Qed.
+  Lemma f_cmd_arm self k v : gen_ok (cmd_arm self k v).
+  Proof. intros c f d p m H Hq. unfold cmd_arm. go. Qed.
+  Lemma f_cmd_panic self : gen_ok (cmd_panic self).
+  Proof. intros c f d p m H Hq. unfold cmd_panic. go. Qed.
+  Lemma f_cmd_obs self l : gen_ok (cmd_obs self l).
+  Proof. intros c f d p m H Hq. unfold cmd_obs. go. Qed.
+  Lemma f_cmd_w_obs self w : gen_ok (cmd_w_obs K self w).
+  Proof. intros c f d p m H Hq. unfold cmd_w_obs. go. Qed.
+  (** [sobs] samples [is_tracing()]: false at script level *)
+  Lemma f_cmd_s_obs self : gen_ok (cmd_s_obs K self).
+  Proof.
+    intros c f d p m H Hq. unfold cmd_s_obs. apply inv_ok, inv_emit; [|exact H].
+    unfold cur_flags. cbn [fl_t ev_ok].
+    rewrite (inv_c _ _ _ _ _ _ H), (inv_f _ _ _ _ _ _ H), (inv_d _ _ _ _ _ _ H). exact Hq.
+  Qed.
+
+  Lemma f_step_cmd self cm : gen_ok (step_cmd K P rec self cm).
+  Proof.
+    intros c f d p m. destruct cm; cbn [step_cmd];
+      [ apply f_cmd_new
+      | apply f_cmd_clone
+      | apply f_cmd_drop
+      | apply f_cmd_move
+      | apply f_cmd_mark_alive
+      | apply f_cmd_collect
+      | apply f_cmd_downgrade
+      | apply f_cmd_upgrade
+      | apply f_cmd_w_new
+      | apply f_cmd_w_clone
+      | apply f_cmd_w_drop
+      | apply f_cmd_try_unwrap
+      | apply f_cmd_drop_value
+      | apply f_cmd_fin_again
+      | apply f_cmd_new_cyclic
+      | apply f_cmd_register
+      | apply f_cmd_clean
+      | apply f_cmd_c_drop
+      | apply f_cmd_bag
+      | apply f_cmd_unbag
+      | apply f_cmd_borrow
+      | apply f_cmd_unborrow
+      | apply f_cmd_cfg_auto
+      | apply f_cmd_cfg_percent
+      | apply f_cmd_cfg_buffered
+      | apply f_cmd_arm
+      | apply f_cmd_panic
+      | apply f_cmd_obs
+      | apply f_cmd_w_obs
+      | apply f_cmd_s_obs ].
+  Qed.
+
+  Lemma gen_ok_post (X : machine -> machine * outcome) k m :
+    gen_ok X -> target k m = ctl m -> log_ok K (log m) -> quiet K m ->
+    Post K k m (X m).1 (X m).2.
+  Proof.
+    intros HX Ht Hl Hq. unfold Post. rewrite Ht. unfold ctl.
+    apply HX; [split; [reflexivity | exact Hl] | exact Hq].
+  Qed.
+
+  (** the step case of [run_ind] *)
+  Lemma flags_step_ok : rec_ok (Pre K) (Post K) (step K P rec).
+  Proof.
+    intros k m [Hl Hc]. destruct k; cbn [step]; cbn [cond] in Hc.
+    - apply gen_ok_post; auto using f_step_cmd.
+    - apply gen_ok_post; auto using f_step_script.
+    - apply gen_ok_post; auto using f_step_store.
+    - apply gen_ok_post; auto using f_step_drop_cc.
+    - apply gen_ok_post; auto using f_step_drop_value.
+    - apply gen_ok_post; auto using f_step_drop_fields.
+    - apply gen_ok_post; auto using f_step_drop_map_slots.
+    - unfold Post, target, ctl. apply f_step_trigger. split; [reflexivity | exact Hl].
+    - unfold Post, target, ctl. apply f_step_collect_cycles. split; [reflexivity | exact Hl].
+    - unfold Post, target, ctl. rewrite Hc. apply f_step_collect.
+      split; [unfold ctl; rewrite Hc; reflexivity | exact Hl].
+    - unfold Post, target, ctl. rewrite Hc. apply f_step_collect_loop.
+      split; [unfold ctl; rewrite Hc; reflexivity | exact Hl].
+    - unfold Post, target, ctl. rewrite Hc. apply f_step_collect_once.
+      split; [unfold ctl; rewrite Hc; reflexivity | exact Hl].
+    - destruct Hc as [Hq Hf]. unfold Post, target.
+      apply f_step_finalize_list.
+      + split; [unfold ctl; rewrite Hf; reflexivity | exact Hl].
+      + unfold quiet in Hq. rewrite Hf in Hq. exact Hq.
+    - unfold Post, target. apply f_step_drop_list.
+      split; [unfold ctl; rewrite Hc; reflexivity | exact Hl].
+    - apply gen_ok_post; auto using f_step_unbag.
+    - apply gen_ok_post; auto using f_step_clean_run.
+  Qed.
 End Steps.
+
+(** ** Theorem 1: every activation restores the flags exactly and keeps the log [log_ok],
+    whatever its outcome (normal return, panic, abort, out of fuel). *)
+Theorem run_flags K P n : rec_ok (Pre K) (Post K) (run K P n).
+Proof.
+  apply run_ind.
+  - intros rec Hrec. apply flags_step_ok. exact Hrec.
+  - intros k m [Hl Hc]. unfold Post. destruct k; cbn [target]; cbn [cond] in Hc;
+      try (apply inv_self; exact Hl).
+    + destruct Hc as [_ Hf]. split; [unfold ctl; rewrite Hf; reflexivity | exact Hl].
+    + split; [unfold ctl; rewrite Hc; reflexivity | exact Hl].
+Qed.
